@@ -414,7 +414,11 @@ Fixpoint build_all (cfg : config) (p : pstate) (order : list nat) : pres :=
 Definition visit_order (n next : nat) : list nat := map (fun k => Nat.modulo (next + k) n) (seq O n).
 
 (** ** processBatch, second half: after Forward *)
-Definition piece_of (t : tok) : str := [N.add 97 (Z.to_N (Z.modulo t 26))].
+(** the scripted vocabulary: even tokens decode to one letter, odd tokens to two (so that a stop sequence can
+    end inside a token's text) *)
+Definition piece_of (t : tok) : str :=
+  let c := Z.to_N (Z.modulo t 26) in
+  if Z.even t then [N.add 97 c] else [N.add 97 c; N.add 65 c].
 
 Fixpoint insert_vis (x : Z * tok) (l : list (Z * tok)) : list (Z * tok) :=
   match l with
